@@ -112,7 +112,7 @@ def main(argv):
     v.coverage.update({
         'evaluations': len(cases),
         'distinct_nontrivial': distinct_count([c for c in cases if 'IOk' in c or c.startswith('KSparse')]),
-        'rule': 'seeded layouts compiled with truth-cli and read back by the harness\'s own byte walkers: ANM (TH12): `const` items (forward references, sigils), 1..4 entries, 0..4 sprites each over 8 names (duplicates across entries), explicit ids that are literals (repeating/decreasing/i32 and u32 boundaries) or generated constant expressions (arithmetic, comparisons, bitwise, shifts, logical, unary, ternaries with negative/zero/positive conditions, int()/float() casts, $/% sigils), modes normal / clash (one name defined 2..4 times with every agree-differ pattern) / dupscript (a script name twice, within or across entries, with references to later scripts) / chaos (undefined and clashing names), 1..5 scripts with explicit numbers incl. i32::MAX, uses `ins_3(sprite)`, `ins_102(sprite, n)`, `ins_88/ins_95(script)`, `ins_96(script, f, f)` before and after the definitions; MSG (TH06/TH10): sparse tables with default, table_len, shared/unused/undefined scripts, flags, plus decompile+compile and the decompiler\'s printed sparse table; old ECL (TH07): 1..5 subs, `ins_41(sub)` and timeline arg0 uses, timelines with explicit/automatic/mixed/invalid indices; STD (TH12): objects and instances. distinct = distinct case terms; non-trivial = the compile produced a file (or a sparsify case)',
+        'rule': 'seeded layouts compiled with truth-cli and read back by the harness\'s own byte walkers: ANM (TH12): `const` items (forward references, sigils), 1..4 entries, 0..4 sprites each over 8 names (duplicates across entries), explicit ids that are literals (repeating/decreasing/i32 and u32 boundaries) or generated constant expressions (arithmetic, comparisons, bitwise, shifts, logical, unary, ternaries with negative/zero/positive conditions, int()/float() casts, $/% sigils), modes normal / clash (one name defined 2..4 times with every agree-differ pattern) / shared (one name that is a sprite in 0..3 entries and a script 0..2 times, used in sprite-typed, script-typed and untyped positions: `ins_102(0, name)`, `const int WH_name = name;`) / dupscript (a script name twice, within or across entries, with references to later scripts) / chaos (undefined and clashing names), 1..5 scripts with explicit numbers incl. i32::MAX, uses `ins_3(sprite)`, `ins_102(sprite, n)`, `ins_88/ins_95(script)`, `ins_96(script, f, f)` before and after the definitions; MSG (TH06/TH10): sparse tables with default, table_len, shared/unused/undefined scripts, flags, plus decompile+compile and the decompiler\'s printed sparse table; old ECL (TH07): 1..5 subs, `ins_41(sub)` and timeline arg0 uses, timelines with explicit/automatic/mixed/invalid indices; STD (TH12): objects and instances. distinct = distinct case terms; non-trivial = the compile produced a file (or a sparsify case)',
         'traces_validated_against_impl': len(cases),
         'case_kinds': hist,
         'generator_stats': stats,
@@ -127,5 +127,5 @@ def main(argv):
                       'the constant evaluation of `<id expr> + i` is the wrapping i32 addition proved for C11',
                       'the harness\'s own walkers over ANM v7, MSG, TH07 ECL/timeline and TH12 STD files'],
         assumptions=['sprite ids: the theorem is conditional on the writer succeeding; with the wrapping writer of the current tree (fix b32efe8) it always does (C20_sprite_writer_is_total); for a non-wrapping writer C20_sprite_ids_below_bound_no_overflow gives the guard',
-                     'a name that is both a sprite and a script (two enums) is not generated; stack-ECL sub names (strings) are outside this check',
+                     'stack-ECL sub names (strings) are outside this check',
                      'MSG offsets below 2^32; explicit ANM script numbers are not names and are not modelled'])
